@@ -105,6 +105,9 @@ fn gaussian2d_case<F: Fl + ndarray::NdFloat>(rep: &mut Report, case: u64, g: &mu
             return;
         }
         rep.held();
+        if case < 2 {
+            rep.sample(json!({"monitor": mon, "type": F::NAME, "mean": mean, "cov": cov, "x": x, "normalized": norm, "reference": ref_norm}));
+        }
     }
 }
 
@@ -252,6 +255,9 @@ where
     let sig = format!("DiffableGaussian2D<{tname}> on {bname}");
     if check_target::<T, B, _, _>(rep, mon, case, g, &sig, &lib, &r, &rp, &pts, eps, true, true) {
         rep.count("diffable_gaussian_cases");
+        if case < 16 {
+            rep.sample(json!({"monitor": mon, "target": sig, "mean": mean, "cov": cov, "batch": n, "first_point": pts[0], "ref_logp": r.logp(&pts[0]), "ref_grad": r.grad(&pts[0])}));
+        }
     }
 }
 
@@ -346,6 +352,9 @@ where
         return;
     }
     rep.held();
+    if case < 2 {
+        rep.sample(json!({"monitor": mon, "type": F::NAME, "std": std, "d": d, "logp(from,to)": l_ft, "definition": r}));
+    }
     // normalisation by quadrature, independent of the closed form (D = 1, 2)
     if d <= 2 && case % 4 == 0 {
         let m = 400;
